@@ -471,6 +471,8 @@ func (db *DB) SetReadOnly() error {
 	case perr := <-db.compPerErrC:
 		return perr
 	case <-db.closeC:
+		// Close needs the write lock, and nobody else would release it.
+		<-db.writeLockC
 		return ErrClosed
 	}
 
